@@ -300,6 +300,8 @@ struct Plan {
     n_call01: u64,
     n_call2: u64,
     n_call_more: u64,
+    /// per procedure: 117 calls that pass one aggregate twice with small indices between and after
+    n_alias: u64,
     n_text: u64,
     programs: Vec<(String, String)>,
     cells: Vec<(String, Cell)>,
@@ -322,6 +324,7 @@ impl Plan {
             n_call01: np * (1 + p as u64),
             n_call2,
             n_call_more: if ctx.quick() { 150_000 } else { 3_000_000 },
+            n_alias: np * 117,
             n_text: if ctx.quick() { 100_000 } else { 2_000_000 },
             programs,
             cells: api_cells(),
@@ -329,7 +332,7 @@ impl Plan {
         }
     }
     fn total(&self) -> u64 {
-        self.n_call01 + self.n_call2 + self.n_call_more + self.n_text + self.programs.len() as u64 + self.cells.len() as u64 + self.n_sliced
+        self.n_call01 + self.n_call2 + self.n_call_more + self.n_alias + self.n_text + self.programs.len() as u64 + self.cells.len() as u64 + self.n_sliced
     }
     fn case(&self, ctx: &Ctx, mut i: u64) -> Case {
         let np = self.procs.len() as u64;
@@ -363,9 +366,42 @@ impl Plan {
             let mut rng = ctx.rng("c06-callN", i);
             let proc = self.procs[rng.usize(self.procs.len())].clone();
             let n = 3 + rng.usize(3);
-            return Case::Call { proc, args: (0..n).map(|_| rng.usize(self.p)).collect(), shared: rng.chance(1, 8) };
+            let mut args: Vec<usize> = (0..n).map(|_| rng.usize(self.p)).collect();
+            // one call in four passes its first argument again at a later position, as the very same
+            // object (a vector copied onto itself, a list appended to itself ...), with small integers between
+            if rng.chance(1, 4) {
+                let k = 1 + rng.usize(n - 1);
+                args[k] = args[0];
+                for (j, a) in args.iter_mut().enumerate() {
+                    if j != 0 && j != k && rng.bool() {
+                        *a = *rng.pick(&[0usize, 1, 3]);
+                    }
+                }
+                return Case::Call { proc, args, shared: true };
+            }
+            return Case::Call { proc, args, shared: rng.chance(1, 8) };
         }
         i -= self.n_call_more;
+        if i < self.n_alias {
+            // (proc X i X), (proc X i X j), (proc X i X j k) for X a 3-element vector / list / 5-character
+            // string passed twice as the same object and i, j, k in 0..2
+            let pidx = |name: &str| PALETTE.iter().position(|p| p.0 == name).unwrap();
+            let proc = self.procs[(i / 117) as usize].clone();
+            let r = (i % 117) as usize;
+            let x = [pidx("vec:three"), pidx("list:three"), pidx("str:ascii")][r / 39];
+            let small = [pidx("int:0"), pidx("int:1"), pidx("int:2")];
+            let q = r % 39;
+            let args = if q < 3 {
+                vec![x, small[q], x]
+            } else if q < 12 {
+                vec![x, small[(q - 3) / 3], x, small[(q - 3) % 3]]
+            } else {
+                let t = q - 12;
+                vec![x, small[t / 9], x, small[(t / 3) % 3], small[t % 3]]
+            };
+            return Case::Call { proc, args, shared: true };
+        }
+        i -= self.n_alias;
         if i < self.n_text {
             let mut rng = ctx.rng("c06-text", i);
             return Case::Text(c11::fuzz_text(&mut rng, i));
